@@ -2,7 +2,7 @@
 
 import ast
 
-from .. import iorules, roles
+from .. import gridfun, iorules, roles
 from ..core import AnalysisError
 from ..src import arg_names, calls_in, unparse
 
@@ -16,7 +16,7 @@ LEVEL_TEXT = (
     "split, complex data writing both parts; the transformation dispatch covers exactly the documented modes."
 )
 LEVEL_NOTE = "Out of reach statically: the round trip itself, which goes through meshio's writers/readers and the file system."
-EXPLANATION = "rules TAG-PROVENANCE, MESH-ARRAYS, TRANSFORM-FORMULAS, CAST-LOSSLESS, IMPORT-FALLBACK, EXPORT-DISPATCH"
+EXPLANATION = "rules TAG-PROVENANCE, MESH-ARRAYS, TRANSFORM-FORMULAS, CAST-LOSSLESS, IMPORT-FALLBACK, EXPORT-DISPATCH, GF-EVALUATE"
 ASSUMPTIONS = ["meshio stores and returns cell_data / point_data arrays unchanged under the keys used"]
 
 IO = "bempp_cl/api/grid/io.py"
@@ -54,10 +54,14 @@ def run(ctx):
     exp = m.fn("export")
     # importer keys, in fallback order
     keys = []
+    meshes = [st.targets[0].id for st in imp.body if isinstance(st, ast.Assign) and isinstance(st.targets[0], ast.Name) and isinstance(st.value, ast.Call) and unparse(st.value.func).endswith(".read")]
+    grids = [k.value.id for c in calls_in(imp) if unparse(c.func) == "Grid" for k in c.keywords if k.arg == "domain_indices" and isinstance(k.value, ast.Name)]
+    if len(meshes) != 1 or len(set(grids)) != 1:
+        raise AnalysisError("import_grid: cannot name the mesh read from the file (%s) or the local handed to Grid(domain_indices=...) (%s)" % (meshes, grids))
     for st in ast.walk(imp):
-        if isinstance(st, ast.Assign) and unparse(st.targets[0]) == "domain_indices" and isinstance(st.value, ast.Subscript):
+        if isinstance(st, ast.Assign) and unparse(st.targets[0]) == grids[0] and isinstance(st.value, ast.Subscript):
             v = st.value
-            if isinstance(v.value, ast.Subscript) and unparse(v.value.value) == "mesh.cell_data_dict" and isinstance(v.value.slice, ast.Constant) and isinstance(v.slice, ast.Constant) and v.slice.value == "triangle":
+            if isinstance(v.value, ast.Subscript) and unparse(v.value.value) == meshes[0] + ".cell_data_dict" and isinstance(v.value.slice, ast.Constant) and isinstance(v.slice, ast.Constant) and v.slice.value == "triangle":
                 keys.append((v.value.slice.value, st.lineno))
     keys.sort(key=lambda k: k[1])
     if not keys:
@@ -106,8 +110,11 @@ def run(ctx):
     # alarm on `literal == name` and missed `!=`)
     transform_formulas(ctx)
     iorules.cast_widths(ctx)
-    iorules.import_fallback(ctx, keys)
+    iorules.import_fallback(ctx, keys, grids[0])
     iorules.export_dispatch(ctx, keys[0][0])
+    # what export() writes are the values of evaluate_on_vertices / evaluate_on_element_centers (anchored here as
+    # "vertex/centre evaluation"): the same rule as in C13 decides that they are the function's values there
+    gridfun.evaluate_rules(ctx)
 
 
 # ---------------------------------------------------------------- the transformations as formulas
